@@ -23,11 +23,11 @@ EXPLANATION = (
     "argument slot of the native type built by the class initialiser, one of the init fields that feed that slot, with a "
     "value derived from the source dtype (so E.dtype(native) keeps unit / tz / categories / precision ...); (R8) no "
     "Engine.dtype resolver writes shared state (no memo keyed by native dtype objects, whose equality is coarser than "
-    "pandera's). NOT decided: closure of the runtime registry under resolve/print/resolve, "
+    "pandera's); (R9) every engine-level check override establishes the kind of the other type (native type equality / isinstance / inherited check) besides comparing parameters; (R10) a resolver re-parses the printed name of a numpy dtype only under a test of its kind (sized string/bytes/void names are not parseable). NOT decided: closure of the runtime registry under resolve/print/resolve, "
     "parameterised types, anything depending on what pandas/numpy/pyarrow objects print."
 )
 LEVEL_RULE = "one obligation per registry row / key / family member / duplicate pair found in the current tree"
-FLOORS = {"R1": 150, "R2": 60, "R3": 5, "R4": 100, "R5": 6, "R6": 20, "R7": 20, "R8": 3}
+FLOORS = {"R1": 150, "R2": 60, "R3": 5, "R4": 100, "R5": 6, "R6": 20, "R7": 20, "R8": 3, "R9": 8, "R10": 1}
 
 ENGINE_FILES = [
     "pandera/engines/numpy_engine.py", "pandera/engines/pandas_engine.py", "pandera/engines/pyarrow_engine.py",
@@ -546,6 +546,72 @@ def r8_pure_resolution(ctx):
         raise AnalysisError("Engine.dtype resolvers not found")
 
 
+def r9_kind_conjunct(ctx):
+    """An engine-level `check` override that compares parameters of the native type (time unit, categories, scale ...)
+    must also establish the *kind* of the other type: native type equality, isinstance of the native class, or the
+    inherited check.  Comparing a parameter alone lets a type of another kind that happens to carry the same attribute
+    (pl.Duration.time_unit) be recognised."""
+    n = 0
+    for path in ENGINE_FILES:
+        m = ctx.ix.by_path.get(path)
+        if m is None:
+            continue
+        for f in m.all_functions:
+            if f.name != "check" or f.cls is None or len(f.positional) < 2:
+                continue
+            other = f.positional[1]
+            for s in walk_no_nested(f.node):
+                if not isinstance(s, ast.Return) or s.value is None or isinstance(s.value, ast.Constant):
+                    continue
+                v = s.value
+                t = txt(v)
+                if other not in t and "super()" not in t:
+                    continue
+                n += 1
+                kind = any(
+                    (isinstance(x, ast.Compare) and len(x.ops) == 1 and isinstance(x.ops[0], (ast.Eq, ast.Is)) and
+                     {txt(x.left), txt(x.comparators[0])} & {"self.type", "type(self)", "self"} and other in (txt(x.left) + txt(x.comparators[0])))
+                    or (isinstance(x, ast.Call) and isinstance(x.func, ast.Name) and x.func.id == "isinstance" and x.args and other in txt(x.args[0]))
+                    or (isinstance(x, ast.Call) and isinstance(x.func, ast.Attribute) and x.func.attr == "check" and "super()" in txt(x.func.value))
+                    or (isinstance(x, ast.Call) and isinstance(x.func, ast.Attribute) and x.func.attr == "check" and txt(x.func.value) in ("self.type", "self"))
+                    for x in ast.walk(v))
+                if not kind:
+                    kind = any(isinstance(a, ast.Call) and isinstance(a.func, ast.Name) and a.func.id == "isinstance" and a.args and other in txt(a.args[0])
+                               for st in walk_no_nested(f.node) if isinstance(st, (ast.Assert, ast.If)) for a in ast.walk(st.test))
+                ctx.ob("R9", f, f"{f.cls.name}.check `return {t[:60]}` establishes the kind of `{other}`", kind,
+                       "native type equality / isinstance / inherited check is part of the verdict" if kind else
+                       f"`{t[:90]}` compares parameters only: a type of another kind that carries the same attribute is recognised "
+                       "(t1.check(t2) although kind(t1) != kind(t2))", f.loc(s))
+    ctx.stats["check_returns"] = n
+
+
+def r10_no_name_reparse(ctx):
+    """A resolver may re-parse the printed name of a numpy dtype (to fold platform aliases) only for kinds whose name is
+    parseable: sized string / bytes / void dtypes print as 'str96' / 'bytes32', which numpy rejects, so an unguarded
+    `np.dtype(x.name)` turns accepted spellings ('<U3', 'S4', the dtype of a numpy string array) into TypeErrors."""
+    from ..cfg import cfg_of
+    from ..util import enclosing_stmt, path_condition, show_condition
+    n = 0
+    for q, f in sorted(ctx.ix.funcs.items()):
+        if not (q.startswith("pandera/engines/") and q.endswith("::Engine.dtype")) or "pyspark" in q:
+            continue
+        cfg = None
+        for c in ast.walk(f.node):
+            if isinstance(c, ast.Call) and txt(c.func) in ("np.dtype", "numpy.dtype") and c.args and any(
+                    isinstance(a, ast.Attribute) and a.attr == "name" for a in ast.walk(c.args[0])):
+                n += 1
+                cfg = cfg or cfg_of(f.node)
+                st = enclosing_stmt(c)
+                node = cfg.node_of(st)
+                pc = path_condition(cfg, node.id, keep=lambda t, nn: ".kind" in t) if node is not None else ((), frozenset())
+                ok = bool(pc[0])
+                ctx.ob("R10", f, f"`{txt(c)[:60]}` is applied to dtypes with a parseable name only", ok,
+                       f"guarded by {show_condition(pc)}" if ok else
+                       "the printed name of a sized flexible dtype ('str96', 'bytes32', 'void64') is not a numpy spelling: resolving through it "
+                       "raises TypeError for '<U3' / 'S4' / the dtype of a numpy string array, which the engine otherwise accepts", f.loc(c))
+    ctx.stats["name_reparse_sites"] = n
+
+
 def _norm_stmt(m, s):
     from ..util import canon_function_text
     if isinstance(s, (ast.FunctionDef, ast.AsyncFunctionDef)):
@@ -568,6 +634,8 @@ def run(ctx):
     r6_duplicates(ctx, rows)
     r7_parametrized(ctx)
     r8_pure_resolution(ctx)
+    r9_kind_conjunct(ctx)
+    r10_no_name_reparse(ctx)
     ctx.assume("equivalence keys are compared by normalised source text with import aliases expanded; keys that are "
                "equal only at run time (e.g. two spellings of one numpy dtype object) are not detected")
     ctx.assume("generated rows (_build_number_equivalents, _register_numpy_numbers, runtime pyarrow/pyspark objects) "
